@@ -261,6 +261,29 @@ def check_property(prop, tier, seed, out=print):
     traces_validated = 0
     with ctx.Pool(nproc, maxtasksperchild=20) as pool:
         for hi, h in enumerate(hs):
+            def fallback(h, agg):
+                # the symbolic model could not follow the code under test (model gap / concretisation / spurious counterexample):
+                # as a safety net the committed solver witnesses of this harness are replayed concretely on the real program
+                nonlocal traces_validated
+                if not h.real or agg.get("fallback_witness_replays") is not None:
+                    return
+                vecs = load_witness(prop, tier, h.name)
+                rr = replay_real(prop, tier, h.name, vecs, mode="conformance")
+                traces_validated += len(rr)
+                agg["fallback_witness_replays"] = len(rr)
+                seen_a = set()
+                for vec, r in zip(vecs, rr):
+                    if r.get("violation") and r["violation"]["assert"] not in seen_a:
+                        seen_a.add(r["violation"]["assert"])
+                        rv = dict(r["violation"], harness=h.name)
+                        k = match_known(known, prop, rv)
+                        if k:
+                            known_seen.append((k, rv))
+                        else:
+                            v = {"inputs": vec, "assert": rv["assert"], "detail": rv["detail"], "harness": h.name,
+                                 "note": "found by concrete replay of committed solver witnesses after a model gap"}
+                            confirmed.append((v, r, write_replay_file(prop, tier, h.name, v, r)))
+
             agg = run_harness(prop, tier, hi, h, pool, out)
             results.append(agg)
             out("  [%s] %s: %d paths (%d non-trivial), %d queries, solver %.1fs, wall %.1fs, %d violating paths"
@@ -268,25 +291,7 @@ def check_property(prop, tier, seed, out=print):
                    agg["wall_s"], len(agg["violations"])))
             if agg["status"] == "error":
                 harness_errors += ["%s: %s" % (h.name, e) for e in agg["errors"]]
-                # the symbolic model could not follow the code under test (model gap / concretisation): as a safety net the
-                # committed solver witnesses of this harness are replayed concretely on the real program
-                if h.real:
-                    vecs = load_witness(prop, tier, h.name)
-                    rr = replay_real(prop, tier, h.name, vecs, mode="conformance")
-                    traces_validated += len(rr)
-                    agg["fallback_witness_replays"] = len(rr)
-                    seen_a = set()
-                    for vec, r in zip(vecs, rr):
-                        if r.get("violation") and r["violation"]["assert"] not in seen_a:
-                            seen_a.add(r["violation"]["assert"])
-                            rv = dict(r["violation"], harness=h.name)
-                            k = match_known(known, prop, rv)
-                            if k:
-                                known_seen.append((k, rv))
-                            else:
-                                v = {"inputs": vec, "assert": rv["assert"], "detail": rv["detail"], "harness": h.name,
-                                     "note": "found by concrete replay of committed solver witnesses after a model gap"}
-                                confirmed.append((v, r, write_replay_file(prop, tier, h.name, v, r)))
+                fallback(h, agg)
                 continue
             if agg["status"] != "exhausted":
                 inconclusive.append("%s: %s" % (h.name, agg["status"]))
@@ -309,6 +314,7 @@ def check_property(prop, tier, seed, out=print):
                 if not reproduced:
                     harness_errors.append("%s: counterexample for %s did not reproduce on the real program (%s) inputs=%s"
                                           % (h.name, aid, json.dumps(rr)[:600], json.dumps(tries[0]["inputs"])[:400]))
+                    fallback(h, agg)
                     continue
                 for v, r in reproduced:
                     rv = dict(r["violation"], harness=h.name)
